@@ -9,6 +9,7 @@ import (
 	"runtime"
 	"strings"
 	"sync"
+	"sync/atomic"
 	"testing"
 	"time"
 
@@ -563,3 +564,85 @@ func TestRandomCloseCancel(t *testing.T) {
 }
 
 func TestReplayProgram(t *testing.T) { gcprog.ReplayFromEnv(t, 300) }
+
+// ---------- many Close calls released at the same instant ----------
+
+// "Close ... close the affected output channels exactly once without panic", also for Close calls that start together
+// (a signal handler and a deferred Close). The table's close2 entries start their two calls one after the other; here
+// 2..8 callers leave a spin barrier at the same instant, thousands of times.
+func TestConcurrentCloseBurst(t *testing.T) {
+	defer runtime.GOMAXPROCS(runtime.GOMAXPROCS(0))
+	rapid.Check(t, func(t *rapid.T) {
+		procs := rapid.SampledFrom([]int{2, 4, 16}).Draw(t, "gomaxprocs")
+		runtime.GOMAXPROCS(procs)
+		closers := rapid.IntRange(2, 8).Draw(t, "closers")
+		cfg := gochannel.Config{
+			OutputChannelBuffer:            int64(rapid.SampledFrom([]int{0, 2}).Draw(t, "buffer")),
+			Persistent:                     rapid.Bool().Draw(t, "persistent"),
+			BlockPublishUntilSubscriberAck: rapid.Bool().Draw(t, "blocking"),
+		}
+		nsubs := rapid.IntRange(0, 2).Draw(t, "subscriptions")
+		rounds := 25
+		for r := 0; r < rounds; r++ {
+			g := gochannel.NewGoChannel(cfg, watermill.NopLogger{})
+			var chans []<-chan *message.Message
+			for i := 0; i < nsubs; i++ {
+				ch, err := g.Subscribe(context.Background(), "T")
+				if err != nil {
+					t.Fatalf("harness: subscribe: %v", err)
+				}
+				chans = append(chans, ch)
+			}
+			var ready, goFlag atomic.Int64
+			var wg sync.WaitGroup
+			var mu sync.Mutex
+			var panics []string
+			for c := 0; c < closers; c++ {
+				wg.Add(1)
+				go func() {
+					defer wg.Done()
+					defer func() {
+						if p := recover(); p != nil {
+							mu.Lock()
+							panics = append(panics, fmt.Sprint(p))
+							mu.Unlock()
+						}
+					}()
+					ready.Add(1)
+					for goFlag.Load() == 0 {
+						if closers >= procs {
+							runtime.Gosched() // more spinners than processors: yield instead of waiting for preemption
+						}
+					}
+					g.Close()
+				}()
+			}
+			for ready.Load() < int64(closers) {
+				runtime.Gosched()
+			}
+			goFlag.Store(1)
+			done := make(chan struct{})
+			go func() { wg.Wait(); close(done) }()
+			select {
+			case <-done:
+			case <-time.After(lib.Live):
+				t.Fatalf("violation: %d concurrent Close calls did not all return within %v", closers, lib.Live)
+			}
+			if len(panics) > 0 {
+				t.Fatalf("violation: %d Close calls started at the same instant: panic: %s", closers, panics[0])
+			}
+			for i, ch := range chans {
+				select {
+				case _, ok := <-ch:
+					if ok {
+						t.Fatalf("violation: message invented on subscription %d after Close", i)
+					}
+				case <-time.After(lib.Live):
+					t.Fatalf("violation: output channel of subscription %d not closed after every Close call returned", i)
+				}
+			}
+		}
+		lib.Case(fmt.Sprintf("close-burst|%d|%+v|%d|%d", closers, cfg, nsubs, procs), true, "close-burst")
+		lib.Sample(map[string]any{"test": "ConcurrentCloseBurst", "closers": closers, "subscriptions": nsubs, "rounds": rounds})
+	})
+}
